@@ -65,6 +65,49 @@ def half_plus_q_contexts(ctx, followers):
                       detail_bad=f"in {s_!r} the bare quarter after the half is no longer recognised (look-ahead misses {nxt!r}): "
                                  f"the element is not completed and disappears from the aliquots",
                       key=f"RX-LANG-CTX|half_plus_q_regex|{pre}|{nxt}")
+            if nxt in ('.', ';', ','):
+                # ... and the match the engine reports (priority order) stops in front of the
+                # separator: a swallowed '.' glues this element to the next one
+                for tail in ('', ' S½SW¼'):
+                    end = Lh.first_end(s_ + tail, 0)
+                    ctx.check(end == len(pre), 'RX-LANG-CTX',
+                              f"half_plus_q_regex leaves the {nxt!r} after {pre!r} alone ({(s_ + tail)!r})",
+                              detail_bad=f"in {(s_ + tail)!r} the match ends at {end}, not {len(pre)}: the separator {nxt!r} is taken "
+                                         f"into the aliquot, so this element and the one after it are later joined into a single "
+                                         f"(wrong) aliquot", key=f"RX-LANG-CTX|half_plus_q_regex|swallow|{pre}|{nxt}|{bool(tail)}")
+
+
+def lookahead_covers_spellings(ctx):
+    """The aliquot scrubbers end in the look-ahead `aqwb_lkahead` ("what
+    follows is the start of another aliquot, a separator or the end").  Two
+    tables of the same module must agree: every spelling the direction /
+    quarter sub-patterns (n_simple ... sw_simple) accept has to be accepted
+    by the look-ahead as the start of the next aliquot, otherwise a chain
+    written without blanks ('N/2So. 1/2', 'SW/4N.E. 1/4') stops being
+    normalised although each of its parts is a legal spelling."""
+    from .. import rx as _rx
+    env = ctx.fold.module_env('pytrs.parser.rgxlib.aliquots')
+    la = env.get('aqwb_lkahead')
+    if not isinstance(la, str):
+        ctx.undecided('SIB', 'aqwb_lkahead accepts every spelling of a following aliquot', 'aqwb_lkahead does not fold to a string')
+        return
+    L = _rx.Lang(la, re.I)
+    n = 0
+    for name, tail in (('n_simple', ' 1/2'), ('s_simple', ' 1/2'), ('e_simple', '/2'), ('w_simple', '½'),
+                       ('ne_simple', '/4'), ('nw_simple', ' 1/4'), ('se_simple', '¼'), ('sw_simple', '/4')):
+        pat = env.get(name)
+        if not isinstance(pat, str):
+            continue
+        words = _rx.enumerate_words(_rx.parse(pat, re.I), re.I)
+        miss = [w for w in words if w and not L.matches_at(w + tail, 0)]
+        n += 1
+        ctx.check(not miss, 'SIB', f"aqwb_lkahead accepts every spelling of {name} as the start of the next aliquot",
+                  f"{len(words)} spellings",
+                  f"{name} accepts {miss[0]!r}, but the look-ahead does not see {(miss[0] + tail)!r} as the start of an aliquot: in "
+                  f"a chain without blanks ('N/2{miss[0]}{tail}') the first component is no longer scrubbed and the chain "
+                  f"yields no QQs ({len(miss)} of {len(words)} spellings)" if miss else '',
+                  key=f"SIB|aqwb_lkahead|{name}", where='pytrs/parser/rgxlib/aliquots.py')
+    ctx.floor('direction / quarter sub-patterns compared with the look-ahead', n, 6)
 
 
 def _cut_length_from_match(ctx):
@@ -125,6 +168,7 @@ def check(ctx):
     ctx.attempt(common.config_words, plss=('clean_qq',), tract=('clean_qq',))
     ctx.attempt(common.locate_by_text, ctx.repo.func('tract_preprocess:process_half_plus_q_match'))
     ctx.attempt(_cut_length_from_match)
+    ctx.attempt(lookahead_covers_spellings)
 
 
 def _tables(ctx, base):
